@@ -460,7 +460,11 @@ impl DomSim {
     fn gen_builder(&self, r: &mut Rng, model: &Model, base: NodeId, uid_mode: bool, dom: usize) -> NodeSpec {
         let wide = r.chance(1, 120);
         let n = if wide {
-            r.range(40, 140) as usize
+            if r.chance(1, 4) {
+                *r.pick(&[255usize, 256, 257, 258])
+            } else {
+                r.range(40, 140) as usize
+            }
         } else {
             match r.below(10) {
                 0..=4 => 1,
@@ -1161,6 +1165,7 @@ impl DomSim {
 
             // ---- perform the real operation ----
             ctx.evals += 1;
+            crate::engine::tick();
             n_exec += 1;
             ctx.count(&format!("op:{}", kind_name(&op.kind)));
             kinds_seq.str(kind_name(&op.kind));
